@@ -2,6 +2,7 @@
 use crate::base::*;
 use crate::fw::*;
 use crate::gen::*;
+use crate::net::*;
 use crate::scn::*;
 use crate::world::*;
 use serde_json::Map;
@@ -41,6 +42,38 @@ pub fn cases(ctx: &Ctx) -> Vec<WCase> {
         s.specs = vec![SpecCfg::new(0), SpecCfg::new(0)];
         s.desync = Some(2);
         out.push(wcase(format!("death-{i}"), s));
+    }
+    // two peers of a four-peer mesh drop out one after the other (timeouts out of reach): the first is dropped by
+    // everybody with an explicit call; the second only by ONE survivor, the other learns of it through gossip while it
+    // still holds a dead endpoint in its (hash-ordered) endpoint map
+    for i in 0..ctx.n(500, 20_000) {
+        let mut rr = r.fork(0x3000_0000 + i as u64);
+        let mut s = Scn::base(rr.next());
+        s.peers = vec![vec![0], vec![1], vec![2], vec![3]];
+        s.pred = rr.below(2) as u8;
+        s.mp = rr.pick(&[2usize, 4, 8]);
+        s.delay = rr.below(3) as usize;
+        s.sparse = rr.chance(0.3);
+        s.sticky = rr.pick(&[1u32, 3]);
+        s.frames = 450;
+        s.notify_ms = 50_000;
+        s.timeout_ms = 60_000;
+        s.link = Link::clean(rr.pick(&[0u64, 10, 30]));
+        s.specs = vec![SpecCfg::new(0), SpecCfg::new(0)];
+        s.desync = if rr.chance(0.5) { Some(3) } else { None };
+        let t1 = rr.range(1500, 2500);
+        s.kill = Some(Kill { node: 3, at_ms: t1, pdrop: 0.0 });
+        for n in 0..3 {
+            s.actions.push(Action { node: n, when: Trigger::AtMs(t1 + rr.range(150, 500)), act: Act::Disconnect { h: 3 } });
+        }
+        let t2 = t1 + rr.range(900, 1600);
+        s.kill2 = Some(Kill { node: 2, at_ms: t2, pdrop: 0.0 });
+        let caller = rr.below(2) as usize;
+        s.actions.push(Action { node: caller, when: Trigger::AtMs(t2 + rr.range(150, 400)), act: Act::Disconnect { h: 2 } });
+        s.start = Start::AllRunning;
+        s.limit_ms = 14_000;
+        s.settle_ms = 500;
+        out.push(wcase(format!("twodrops-{i}"), s));
     }
     out
 }
@@ -102,7 +135,7 @@ pub fn check(ctx: &Ctx) -> i32 {
     let res = par_run(ctx, &cs, &|c: &WCase| c.id.clone(), &|c: &WCase| run_case_k(c, reps));
     let meta = Meta {
         level: "exploration",
-        rule: format!("every scenario is executed {reps} times inside one process (each std HashMap gets a fresh RandomState, magic numbers and sync nonces are fresh random values) under the deterministic simulated clock and network, whose per-link PRNG streams and canonical delivery order make 'same received packets in the same order' hold inductively as long as each session's per-link output is deterministic. Scenarios: C01's space restricted to meshes of 3-4 peers or 2 local players per peer, 2-3 spectators, desync detection on, different input delays per local player (set_input_delay), plus two-peer deaths with two players per side. Compared between repetitions, per node: the hash of every request list (kinds, frames, input values, statuses), final state, API results, and per remote address the event sequence with virtual timestamps. Non-trivial: >= 2 hash-iterated collections with >= 2 entries (players per peer / remotes / spectators) and >= 1 rollback. Distinct: configuration + trace hash."),
+        rule: format!("every scenario is executed {reps} times inside one process (each std HashMap gets a fresh RandomState, magic numbers and sync nonces are fresh random values) under the deterministic simulated clock and network, whose per-link PRNG streams and canonical delivery order make 'same received packets in the same order' hold inductively as long as each session's per-link output is deterministic. Scenarios: C01's space restricted to meshes of 3-4 peers or 2 local players per peer, 2-3 spectators, desync detection on, different input delays per local player (set_input_delay), plus two-peer deaths with two players per side, plus four-peer meshes in which two peers drop out one after the other (the first dropped by everybody with disconnect_player, the second by one survivor only, so that the other adopts it from gossip while holding a dead endpoint). Compared between repetitions, per node: the hash of every request list (kinds, frames, input values, statuses), final state, API results, and per remote address the event sequence with virtual timestamps. Non-trivial: >= 2 hash-iterated collections with >= 2 entries (players per peer / remotes / spectators) and >= 1 rollback. Distinct: configuration + trace hash."),
         assumptions: std_assumptions(),
         floor_nontrivial: if ctx.quick() { 200 } else { 5000 },
         exhaustive: None,
